@@ -28,6 +28,9 @@ theorem XL.append {a b : Str} (h1 : XL a b) {c d : Str} (h2 : XL c d) : XL (a ++
   | lpc t u _ hu ih =>
     obtain ⟨h, r, rfl, hne⟩ := hu
     exact XL.lpc _ _ ih ⟨h, r ++ d, rfl, hne⟩
+  | cnt q t u hq _ ih =>
+    have := XL.cnt q _ _ hq ih
+    simpa [List.append_assoc] using this
 
 /-- a run of complete lexemes without white space: it can be put in front of both texts -/
 def Solid (w : Str) : Prop := ∀ {t u : Str}, XL t u → XL (w ++ t) (w ++ u)
